@@ -106,15 +106,18 @@ TCrash ==
 TRestart ==
     /\ More /\ E.ev = "restart" /\ Restart(E.n)
     /\ l' = l + 1
-(* kv.Open returned: all peers were recovered, in some order, each with the high-water mark
-   loaded at start or after another peer's commit; the result must be the recorded digests.
+(* kv.Open returned: all peers were recovered one after the other in some order (a map
+   iteration), each with the high-water mark loaded once when Open started and only
+   superseding operations applied (as-was deviation: mark from start-up or later, everything
+   applied); the result must be the recorded digests.
    (One composite step, so that invariants are judged on the real outcome only.)        *)
 EHW(e) == LET vs == {e[k].ver : k \in Key} IN CHOOSE v \in vs : \A w \in vs : v >= w
 RECURSIVE RecPaths(_, _, _, _)
 RecPaths(e, g, seq, hw0) ==
     IF seq = <<>> THEN {[e |-> e, g |-> g]}
     ELSE UNION {LET S == {o \in EngOps(Head(seq)) : o.ver >= hw}
-                IN RecPaths(ApplySet(e, S), g \cup S, Tail(seq), hw0) : hw \in {hw0, EHW(e)}}
+                IN RecPaths(ApplySet(e, IF AsWasRecovery THEN S ELSE AccSet(e, S)), g \cup S, Tail(seq), hw0) :
+                    hw \in (IF AsWasRecovery THEN {hw0, EHW(e)} ELSE {hw0})}
 TRecovered ==
     /\ More /\ E.ev = "recovered" /\ status[E.n] = "rec"
     /\ \E seq \in SetToSeqs(Node \ {E.n}) : \E r \in RecPaths(eng[E.n], got[E.n], seq, hwsnap[E.n]) :
